@@ -286,7 +286,8 @@ def gen_fault(g, cfg):
     elif kind == "rc-store-raise":
         f["at_call"] = g.pick([0, 0, 1, 2, 3, 5])  # n-th batch of samples that race control adds to its store
     elif kind == "prep-processor-raise":
-        pass
+        # the processor itself raises, or it hands out a preparation step (run by the task executor's pool) that raises
+        f["how"] = g.pick(["processor", "task", "task"])
     elif kind == "prep-fail":
         bulks = [t for _, _, t in leaf_tasks(cfg["schedule"]) if t["op"] == "bulk"]
         if not bulks:
@@ -470,6 +471,10 @@ class RaceHarness(Harness):
         for rep in range(3):
             c = json.loads(json.dumps(base))
             c["fault"] = {"kind": "prep-processor-raise", "rep": rep}
+            yield c
+        for rep in range(6):
+            c = json.loads(json.dumps(base))
+            c["fault"] = {"kind": "prep-processor-raise", "rep": rep, "how": "task"}
             yield c
         # a failure at race control followed at once by the end of the race: the last step is one short request, messages stall
         short = json.loads(json.dumps(base))
@@ -853,7 +858,7 @@ class RaceHarness(Harness):
             elif k == "prep-processor-raise":
                 # the plug-in registers a track processor whose on_prepare_track raises (on every load driver host)
                 with open(os.path.join(out.track_dir, "processor-raises"), "w") as f:
-                    f.write("1")
+                    f.write(fault.get("how", "processor"))
             elif k == "prep-fail":
                 p = os.path.join(out.track_dir, f"docs-{fault['task']}.json")
                 if os.path.exists(p):
